@@ -65,6 +65,7 @@ func VerifC19Builtin() {
 	prod := rt.Choice("producer", np)
 	block := verifProducers[prod] + cmd
 	a1 := rt.Choice("arg1", na+1)
+	undefinedVar := false
 	if a1 == na {
 		// symbolic bytes only where the result is not re-encoded with encoding/json
 		// (reflection codec on symbolic data is outside the engine)
@@ -79,10 +80,13 @@ func VerifC19Builtin() {
 	} else {
 		block += " " + verifArgs[a1]
 		if rt.Param("two") == 1 {
-			block += " " + verifArgs[rt.Choice("arg2", na)]
+			a2 := rt.Choice("arg2", na)
+			block += " " + verifArgs[a2]
+			undefinedVar = verifArgs[a2] == "$nope" || verifArgs[a2] == "@nope"
 		}
 	}
 	rt.Note("block=" + block)
+	rt.KnownFinding("C19-bg-parameter-error-hangs", cmd == "bg" && (undefinedVar || (a1 < na && (verifArgs[a1] == "$nope" || verifArgs[a1] == "@nope"))))
 	// known elsewhere: `args` with an undeclared flag dereferences a nil flag table (needs a declared flag table:
 	// C24's harness), `[-5]` beyond the array is a 'panic caught' (C16's harness)
 
